@@ -626,6 +626,9 @@ func (db *RockDB) HIncrBy(ts int64, key []byte, field []byte, delta int64) (int6
 		}
 	}
 
+	if isAddInt64Overflow(n, delta) {
+		return 0, errIntOverflow
+	}
 	n += delta
 
 	_, err = db.hSetField(ts, false, key, field, FormatInt64ToSlice(n), wb, hindex)
